@@ -264,7 +264,7 @@ def run_case(spec, ctx):
         if ctx.failed(r):
             ctx.violation(f"c01:exception:{r.type}@{r.where}", f"get_state_probability raised {r!r}", part=part)
         else:
-            ctx.expect(abs(float(r) - want) <= 1e-9 + 1e-9 * want, "c01:state-probability",
+            ctx.expect(abs(float(r) - want) <= ctx.tol()["atol"] + ctx.tol()["rtol"] * want, "c01:state-probability",
                        f"get_state_probability={float(r)!r}, joint says {want!r}", part=part)
 
     # predict_probability: one row per evidence assignment, columns '<var>_<state>'
